@@ -362,7 +362,7 @@ static void runScript(int me) {
         case X_SEND: if (H.p) { int to = (int)(o.b % S.n); if (to == me || !S.t[to].script) break; S.t[to].mailbox.push_back(H); vcJoin(S.t[to].mailVc, T.vc); T.vc[me]++; H.p = 0; probe("block_handed_to_other_thread"); } break;
         case X_RECV: { vcJoin(T.vc, T.mailVc); Vec<Held> mb; mb.swap(T.mailbox); for (size_t k = 0; k < mb.size(); k++) release(mb[k]); break; }
         case X_YIELD: schedPoint(); break;
-        case X_USERLOCK: { ScopedMutexLock own(g_userMutex); probe("second_mutex_taken"); schedPoint(); break; }      // another lock of the same platform layer, held across a scheduling point
+        case X_USERLOCK: { ScopedMutexLock own(g_userMutex); probe("second_mutex_taken"); schedPoint(); char* q = new char[8]; q[0] = 1; delete[] q; break; }      // another lock of the same platform layer, held across a scheduling point
         default: break;
         }
     }
